@@ -383,6 +383,7 @@ func runTarget(p *Loaded, t Target, selRet int) (res *TargetResult) {
 				target = fn
 			}
 		}
+		x.probeOpaque = res.Opaque
 		x.specOverride = map[*ssa.Function]*FuncSpec{target: t.Spec}
 		x.calleeMode = append(x.calleeMode, &calleeCtx{fn: target, prove: true})
 	} else {
